@@ -51,6 +51,7 @@ type wakeMsg struct {
 	quantum int64
 	child   *Task
 	seed    uint64
+	ok      bool
 }
 
 // Task is one simulated goroutine.
@@ -104,6 +105,7 @@ const (
 	rqRWUnlock
 	rqRWRLock
 	rqRWRUnlock
+	rqTryLock
 )
 
 type request struct {
@@ -214,6 +216,16 @@ func Yield() {
 		return
 	}
 	yieldSlow()
+}
+
+//go:norace
+func yieldHot() {
+	if !active {
+		return
+	}
+	if t := cur; !t.killed {
+		t.ask(request{kind: rqYield})
+	}
 }
 
 //go:norace
@@ -369,6 +381,12 @@ func (m *Mutex) Lock() {
 			runtime.Goexit()
 		}
 		t.ask(request{kind: rqLock, ptr: unsafe.Pointer(m), site: "Mutex.Lock"})
+		m.mu.Lock()
+		// The holder of a lock can be descheduled like anybody else: others then run into the held lock.
+		// Critical sections are short and contain no yield point of their own, so this one always goes to
+		// the scheduler, whatever is left of the quantum (under the canonical policy the holder just goes on).
+		yieldHot()
+		return
 	}
 	m.mu.Lock()
 }
@@ -440,9 +458,25 @@ func (m *RWMutex) RUnlock() {
 	m.mu.RUnlock()
 }
 
+// TryLock never waits: it takes the lock if nobody holds it at this moment.
+//
 //go:norace
 func (m *Mutex) TryLock() bool {
-	panic("simrt: Mutex.TryLock is not modelled")
+	if active {
+		t := cur
+		if t.killed {
+			runtime.Goexit()
+		}
+		Yield()
+		if !t.ask(request{kind: rqTryLock, ptr: unsafe.Pointer(m)}).ok {
+			return false
+		}
+		if !m.mu.TryLock() {
+			panic("simrt: the mirror of a mutex says free, the mutex is held")
+		}
+		return true
+	}
+	return m.mu.TryLock()
 }
 
 // Pool replaces sync.Pool with a deterministic model: a LIFO free list (returning the most
